@@ -320,7 +320,7 @@ def run(tier, rep):
     route_equivalence(tier, rep)
     shards = 6 if tier == "quick" else 16
     args = [{"shard": i, "tier": tier, "requests": 700 if tier == "quick" else 9000} for i in range(shards)]
-    for res in sandbox.run_many("vf.props.c04", "proxied_worker", args, workers=shards, timeout=1500):
+    for res in sandbox.run_many("vf.props.c04", "proxied_worker", args, workers=shards, timeout=1500 if tier == "quick" else 9000):
         rep.merge_worker(res)
     if tier == "thorough":
         from .. import miri
@@ -337,7 +337,7 @@ def run(tier, rep):
             accepted = [x.hex() for _, x in sig.strings_to_sign(method.encode(), target.encode(), recv, body)]
             corpus.append({"method": method, "uri": target, "headers": [[k, v.strip().encode().hex()] for k, v in hs], "body": body.hex(), "accepted": accepted})
         miri.run({"sig": corpus}, [], rep)
-    rep.merge_worker(sandbox.run("vf.props.c04", "attest_worker", {"tier": tier, "rounds": 40 if tier == "quick" else 400}, timeout=600))
+    rep.merge_worker(sandbox.run("vf.props.c04", "attest_worker", {"tier": tier, "rounds": 40 if tier == "quick" else 400}, timeout=600 if tier == "quick" else 5400))
     rep.assumptions += ["order of query pairs in the canonical string: (key,value) order and key+value-concatenation order both accepted; exact duplicate pairs once or as received",
                         "repeated header names: any of last/first/joined/each accepted (counted as ambiguous)",
                         "header values with bytes >= 0x80 are exercised by C13, not here"]
